@@ -1,4 +1,6 @@
 import SFV.Lemmas.Ledger
+import SFV.Lemmas.HW
+import SFV.Model.Sched
 /-! # C11 — released resources return exactly what was reserved
 
 Same bookkeeping model as C10 (`SFV/Model/Ledger.lean`: one numeric component — cores, memory or one mount point —
@@ -7,6 +9,59 @@ every repetition" is the quantification over all histories `ops`. Numbers are ex
 residue is a Python-side finding, see known_findings.d/C11.jsonl). -/
 namespace SFV.C11
 open SFV.Gen.Sched SFV.Ledger
+
+/-- **the Hardware-level release** (`hardware_locations[loc] = (hardware_locations[loc] - job_hardware) + storage_usage` in
+    `_free_resources`, `Sched.freeLevel` in the model): when it does not raise, cores and memory go down by exactly the
+    job's amounts (plus the usage's, which are 0) and every mount point the location's books have goes down by the job's
+    total there and up by the measured usage — the step the per-component ledger abstracts -/
+theorem free_level_exact (cur jobHw usage r : HW.Hardware)
+    (h : (cur.sub jobHw >>= fun d => d.add usage) = .ok r) :
+    r.cores = cur.cores - jobHw.cores + usage.cores ∧ r.memory = cur.memory - jobHw.memory + usage.memory ∧
+    ∀ μ ∈ HW.mounts cur.storage,
+      HW.mountTotal r.storage μ = HW.mountTotal cur.storage μ - HW.mountTotal jobHw.storage μ + HW.mountTotal usage.storage μ := by
+  obtain ⟨d, hd, hr⟩ := (HW.bind_eq_ok _ _ _).mp h
+  obtain ⟨c1, m1, t1⟩ := HW.sub_totals hd
+  have hadd := HW.add_totals_lem d usage r hr
+  obtain ⟨c2, m2, t2⟩ := hadd
+  refine ⟨by rw [c2, c1], by rw [m2, m1], fun μ hμ => ?_⟩
+  rw [t2 μ, t1 μ hμ]
+
+/-- the model's `freeLevel` on one location that has books is exactly that update -/
+theorem freeLevel_single (env : Sched.Env) (jobHw cur : HW.Hardware) (lvl : Sched.Level) (s : Sched.St) (ust : HW.StorageMap)
+    (hc : Sched.assocGet s.reserved lvl.name = some cur)
+    (hu : (if Sched.probeFails env lvl.dep jobHw.storage then .ok [] else Sched.usageDisks env lvl.dep jobHw.storage) = .ok ust) :
+    Sched.freeLevel env jobHw [lvl] s =
+      match cur.sub jobHw >>= fun d => d.add (HW.mkHardware 0 0 ust) with
+      | .ok r => ({ s with reserved := Sched.assocSet s.reserved lvl.name r }, none)
+      | .error e => (s, some (.hw e)) := by
+  simp only [Sched.freeLevel, hc, hu]
+  cases cur.sub jobHw >>= fun d => d.add (HW.mkHardware 0 0 ust) <;> rfl
+
+/-- **the failing-probe branch of `_free_resources`** (`except WorkflowExecutionException: storage_usage = Hardware()`):
+    when the disk-usage probe of the location raises, the release still subtracts the job's cores, memory and storage —
+    the measured usage is just 0 -/
+theorem release_with_failing_probe (cur jobHw r : HW.Hardware)
+    (h : (cur.sub jobHw >>= fun d => d.add HW.Hardware.empty) = .ok r) :
+    r.cores = cur.cores - jobHw.cores ∧ r.memory = cur.memory - jobHw.memory ∧
+    ∀ μ ∈ HW.mounts cur.storage, HW.mountTotal r.storage μ = HW.mountTotal cur.storage μ - HW.mountTotal jobHw.storage μ := by
+  obtain ⟨h1, h2, h3⟩ := free_level_exact cur jobHw HW.Hardware.empty r h
+  have e0 : HW.Hardware.empty.cores = 0 ∧ HW.Hardware.empty.memory = 0 := by decide +kernel
+  have et : ∀ μ, HW.mountTotal HW.Hardware.empty.storage μ = 0 := by
+    intro μ
+    simp only [HW.Hardware.empty, HW.mkHardware, List.isEmpty_nil, if_true, HW.mountTotal]
+    split <;> grind
+  refine ⟨by rw [h1, e0.1]; grind, by rw [h2, e0.2]; grind, fun μ hμ => ?_⟩
+  rw [h3 μ hμ, et μ]; grind
+
+/-- in the model, a location whose probe fails is released with `storage_usage = Hardware()` -/
+theorem freeLevel_probe_fails (env : Sched.Env) (jobHw cur : HW.Hardware) (lvl : Sched.Level) (s : Sched.St)
+    (hc : Sched.assocGet s.reserved lvl.name = some cur) (hf : Sched.probeFails env lvl.dep jobHw.storage = true) :
+    Sched.freeLevel env jobHw [lvl] s =
+      match cur.sub jobHw >>= fun d => d.add HW.Hardware.empty with
+      | .ok r => ({ s with reserved := Sched.assocSet s.reserved lvl.name r }, none)
+      | .error e => (s, some (.hw e)) := by
+  have := freeLevel_single env jobHw cur lvl s [] hc (by simp [hf])
+  simpa [HW.Hardware.empty] using this
 
 /-- **a releasing notification subtracts, at every level, exactly what the allocation added** (and adds the measured
     usage there): whatever happened in between, `_free_resources` works from the entries `_allocate_job` recorded -/
